@@ -485,8 +485,9 @@ pub fn install_hooks() {
         }
     })));
     std::panic::set_hook(Box::new(|info| {
-        if thread::current().name() == Some("main") {
-            // the controller itself: never a verdict
+        if thread::current().name() == Some("main") && current().is_some() {
+            // the controller itself, while it is driving an execution: never a verdict
+            // (outside of executions the main thread also runs reference computations inside catch_unwind)
             eprintln!("MACHINERY: controller panicked: {}", info);
             std::process::exit(2);
         }
